@@ -192,7 +192,19 @@ def build_conv(b, T, G, np_, shape):
             b.assume(cond if v else (opt[i] != 2 if i in tests else opt[i] == 0))
     if shape.get('mop21_max') is not None: b.assume(opt[21] <= shape['mop21_max'])
     if shape.get('solver_max') is not None and dat.solver: b.assume(dat.solver['type'] <= shape['solver_max'])
+    # a LINEQ / SOLVR section whose type field is blank: read() stores no 'type' entry ('absent'); the
+    # API (and the conversions themselves) also hold blank fields as None ('none')
+    for attr, key in (('lineq', 'lineq_type'), ('solver', 'solver_type')):
+        v, d = shape.get(key), getattr(dat, attr)
+        if v == 'absent' and d: d.pop('type', None)
+        elif v == 'none' and d: d['type'] = None
     dat._sections = present_sections(T, dat)       # as if read from a file
+    xp = shape.get('xprec')
+    if xp:
+        # sections held in the AUTOUGH2-only extra-precision file (.pdat), echoed to the main file or not
+        # (the property setters keep the section list in step, as read() does)
+        dat.extra_precision = list(xp['sections'])
+        dat.echo_extra_precision = bool(xp.get('echo', True))
     return dat, info
 
 
@@ -222,9 +234,11 @@ def classify(ops, t):
     return 'delete', None
 
 
-def expect_to_tough2(ops, T, G, np_, ref, shape):
+def expect_to_tough2(ops, T, G, np_, ref, shape, side=None):
     """turn the pristine twin `ref` into the model the documentation promises
-    after convert_to_TOUGH2(MP=shape MP); returns bookkeeping for the generator lookup"""
+    after convert_to_TOUGH2(MP=shape MP); returns bookkeeping for the generator lookup;
+    side (a dict) receives what the explicit obligations of check_conversion need"""
+    if side is None: side = {}
     MP = shape.get('MP', False)
     opt = ref.parameter['option']
     sim = ref.simulator
@@ -238,6 +252,7 @@ def expect_to_tough2(ops, T, G, np_, ref, shape):
         k1 = k * (1. - phi)
         k2 = k1 * (1. - phi)
         n10, n23 = ops.not_(mulkom10), ops.not_(mulkom23)
+        side.setdefault('both_mulkom', []).append((ops.and_(mulkom10, mulkom23), k1))
         rt.conductivity = Alts([(ops.and_(n10, n23), k), (ops.and_(mulkom10, n23), k1), (ops.and_(n10, mulkom23), k1),
                                 (ops.and_(mulkom10, mulkom23), k1), (ops.and_(mulkom10, mulkom23), k2)],
                                'conductivity unchanged, or scaled by (1 - porosity) when MOP(10) = 2 or MOP(23) = 1 with a MULKOM-compatible simulator')
@@ -246,7 +261,8 @@ def expect_to_tough2(ops, T, G, np_, ref, shape):
     new[10] = ops.ite(o10 == 2, 0, o10)
     new[12] = ops.ite(o12 == 2, 0, o12)
     if MP: new[21] = 0
-    elif ref.lineq: new[21] = ops.ite(ref.lineq['type'] <= 1, 4, 5)
+    elif ref.lineq and ref.lineq.get('type') is not None: new[21] = ops.ite(ref.lineq['type'] <= 1, 4, 5)
+    elif ref.lineq: new[21] = Alts([(True, 4), (True, 5)], 'MOP(21) = 4 or 5 (LINEQ section without a solver type: the simulator default)')
     else: new[21] = 4
     for i in (22, 23, 24): new[i] = 0
     if MP:
@@ -269,6 +285,8 @@ def expect_to_tough2(ops, T, G, np_, ref, shape):
         ref.history_generator = [BlockRef(n) for n in blks]
     ref.short_output = {}
     if MP: ref.filename = 'INFILE'
+    # the extra-precision auxiliary file is AUTOUGH2-only: nothing stays designated for it
+    ref._extra_precision = []
     # generators
     fate = []
     kept = []
@@ -304,8 +322,25 @@ def check_lookup(ops, st, before_keys, fate, dat, where, skip=()):
             st.ob(key in lut and bool(listed) and lut[key] is listed[-1], '%slookup-finds-kept: the lookup still finds the (last) generator named %r' % (where, key))
 
 
-def expect_to_autough2(ops, T, G, np_, ref, shape):
-    """the model the documentation promises after convert_to_AUTOUGH2"""
+def named_requests(before, dat):
+    """history requests held as bare names although the grid has the block / connection
+    (a FOFT / COFT / GOFT section read before ELEME / CONNE, or names given through the API).
+    before: the model as it was before the conversion (the pristine twin), dat: the converted one;
+    -> [(list name, item, the object(s) of dat the request stands for)]"""
+    g, out = dat.grid, []
+    for x in before.history_block:
+        if isinstance(x, str) and x in g.block: out.append(('block', x, [g.block[x]]))
+    for x in before.history_connection:
+        if isinstance(x, tuple) and x in g.connection: out.append(('connection', x, [g.connection[x]]))
+    for x in before.history_generator:
+        if isinstance(x, str) and x in g.block: out.append(('generator', x, [gn for gn in dat.generatorlist if gn.block == x]))
+    return out
+
+
+def expect_to_autough2(ops, T, G, np_, ref, shape, resolve_names=True):
+    """the model the documentation promises after convert_to_AUTOUGH2; resolve_names: a bare name
+    the grid knows stands for its block / connection (convert_history_to_short discards only
+    "items referring to blocks or connections not present in the grid")"""
     MP = shape.get('MP', False)
     simulator, eos = shape.get('simulator_arg', 'AUTOUGH2.2'), shape.get('eos_arg', 'EW')
     opt = ref.parameter['option']
@@ -318,7 +353,7 @@ def expect_to_autough2(ops, T, G, np_, ref, shape):
     # linear solver: the AUTOUGH2 types are 1 and 2; the forward conversion turns type <= 1 into
     # MOP(21) = 4 and the others into 5, so the mirror has to turn 4 into 1 and 5 into 2
     if MP: st_ = 2
-    elif 'type' in ref.solver: st_ = ref.solver['type']
+    elif ref.solver.get('type') is not None: st_ = ref.solver['type']
     else: st_ = opt[21]
     ref.lineq = {'type': Alts([(st_ == 4, 1), (st_ == 5, 2), (ops.and_(st_ != 4, st_ != 5), 1), (ops.and_(st_ != 4, st_ != 5), 2)],
                               'LINEQ type 1 or 2 (1 for solver 4, 2 for solver 5: mirror of the forward conversion)'),
@@ -332,12 +367,17 @@ def expect_to_autough2(ops, T, G, np_, ref, shape):
     ref.parameter['option'] = np_.array(new, dtype=object)
     # history requests -> short output (bare names cannot be resolved and are dropped, as documented)
     short = {}
-    blks = [x for x in ref.history_block if type(x).__name__ == 't2block']
+    g_ = ref.grid
+    def known(x, table): return resolve_names and isinstance(x, (str, tuple)) and x in table
+    blks = [g_.block[x] if known(x, g_.block) else x for x in ref.history_block]
+    blks = [x for x in blks if type(x).__name__ == 't2block']
     if blks: short['block'] = blks
-    cons = [x for x in ref.history_connection if type(x).__name__ == 't2connection']
+    cons = [g_.connection[x] if known(x, g_.connection) else x for x in ref.history_connection]
+    cons = [x for x in cons if type(x).__name__ == 't2connection']
     if cons: short['connection'] = cons
     gens = []
     for x in ref.history_generator:
+        if known(x, g_.block): x = g_.block[x]
         if type(x).__name__ == 't2generator': more = [x]
         elif type(x).__name__ == 't2block':       # GOFT lists blocks: the request is for all the generators in that block
             more = [g for g in ref.generatorlist if g.block == x.name]
@@ -397,8 +437,33 @@ def check_conversion(ops, T, G, np_, ref, dat, shape, err, st, orig=None):
         st.ob(not dat.simulator, '%s/banned-data: no simulator string' % tag)
         st.ob('eos' not in dat.multi, '%s/banned-data: no EOS name in MULTI' % tag)
     # the expected model
-    if toT: fate = expect_to_tough2(ops, T, G, np_, ref, shape)
-    else: fate = expect_to_autough2(ops, T, G, np_, ref, shape)
+    side = {}
+    if toT:
+        fate = expect_to_tough2(ops, T, G, np_, ref, shape, side)
+        # both MULKOM-compatibility options set: the model uses the MULKOM formulation (once), so the TOUGH2
+        # equivalent is k (1 - porosity), not k (1 - porosity)^2
+        for k, ((both, k1), rt) in enumerate(zip(side.get('both_mulkom', []), dat.grid.rocktypelist)):
+            if ops.is_num(rt.conductivity):
+                st.ob(ops.or_(ops.not_(both), rt.conductivity == k1),
+                      '%s/conductivity/rescaled-twice: MOP(10) = 2 together with MOP(23) = 1 (MULKOM-compatible simulator): rock type %d has the '
+                      'conductivity scaled by (1 - porosity) once' % (tag, k))
+        # extra precision (AUTOUGH2 only): no section may stay designated for the auxiliary file - write() would leave it
+        # out of the main file and, for a TOUGH2 model, write no auxiliary file either
+        left_xp = [s for s in dat._sections if s in dat.extra_precision]
+        st.ob(not dat.extra_precision, '%s/extra-precision-left: no section stays designated for the AUTOUGH2-only extra-precision file (left: %r; '
+              'of these write() %s)' % (tag, list(dat.extra_precision), ('omits %r from the main file' % left_xp) if (left_xp and not dat.echo_extra_precision) else 'still echoes all'))
+        ref._extra_precision = list(dat._extra_precision)        # (reported above, under its own key)
+        ref._echo_extra_precision = dat._echo_extra_precision    # (means nothing without extra-precision sections)
+    else:
+        # requests held as bare names the grid can resolve are requests for existing blocks / connections: not discarded
+        named_ok = True
+        for lst, item, objs in named_requests(ref, dat):
+            have = dat.short_output.get(lst, []) if isinstance(dat.short_output, dict) else []
+            ok = all(any(o is y for y in have) for o in objs)
+            named_ok = named_ok and ok
+            st.ob(ok, '%s/history/named-request-dropped: the %s history request %r names a %s the grid has, so it has a short-output counterpart'
+                  % (tag, lst, item, 'connection' if lst == 'connection' else 'block'))
+        fate = expect_to_autough2(ops, T, G, np_, ref, shape, resolve_names=named_ok)
     if toT:
         for k, g in enumerate(dat.generatorlist):
             st.ob(ops.or_(*([g.type == x for x in TOUGH2_TYPES] + [g.type.startswith('COM')])),
